@@ -175,3 +175,46 @@ func BackoffRetry(b *exponential.Backoff, ctx context.Context, op exponential.Op
 		}
 	}
 }
+
+// ---- sync.Pool ----
+// A pool is modelled as a LIFO free list: Get returns the most recently Put value, or New() when the list is empty.
+// (The runtime may also drop pooled values at any time, which only ever turns a reuse into a New; the reuse is the
+// behaviour worth exploring.)
+type poolState struct {
+	p     *sync.Pool
+	items []any
+}
+
+var pools []*poolState
+
+func poolOf(p *sync.Pool) *poolState {
+	for _, s := range pools {
+		if s.p == p {
+			return s
+		}
+	}
+	s := &poolState{p: p}
+	pools = append(pools, s)
+	return s
+}
+
+func SyncPoolGet(p *sync.Pool) any {
+	s := poolOf(p)
+	if n := len(s.items); n > 0 {
+		x := s.items[n-1]
+		s.items = s.items[:n-1]
+		return x
+	}
+	if p.New != nil {
+		return p.New()
+	}
+	return nil
+}
+
+func SyncPoolPut(p *sync.Pool, x any) {
+	if x == nil {
+		return
+	}
+	s := poolOf(p)
+	s.items = append(s.items, x)
+}
